@@ -1104,6 +1104,8 @@ func runCase(r *h.Run, c caseT) {
 		runAsync(r, c)
 	case "async-backlog":
 		runAsyncBacklog(r, c)
+	case "async-churn":
+		runAsyncChurn(r, c)
 	case "fork-burst":
 		runForkBurst(r, c)
 	}
@@ -1143,9 +1145,11 @@ func main() {
 	}
 	nPool, nCap, nAsync := r.N(96, 2400), r.N(24, 360), r.N(800, 30000)
 	nBacklog, nBurst := r.N(16, 240), r.N(16, 240)
+	nChurn := r.N(48, 960)
 	if r.Phase == "race" {
 		nPool, nCap, nAsync = r.N(24, 400), 0, r.N(160, 3200)
 		nBacklog, nBurst = 4, 0
+		nChurn = 4
 	}
 	if r.Shard == 0 {
 		agreed, illegal, unknown, dis := hist.SelfTest(r.Rand("c19/selftest", 0), r.N(80, 1500), 9, 100*time.Millisecond)
@@ -1160,7 +1164,7 @@ func main() {
 	for _, k := range []struct {
 		kind string
 		n    int
-	}{{"capacity", nCap}, {"pool", nPool}, {"async", nAsync}, {"async-backlog", nBacklog}, {"fork-burst", nBurst}} {
+	}{{"capacity", nCap}, {"pool", nPool}, {"async", nAsync}, {"async-backlog", nBacklog}, {"fork-burst", nBurst}, {"async-churn", nChurn}} {
 		for i := 0; i < k.n; i++ {
 			idx++
 			if !r.Mine(idx) || (*only != "" && *only != k.kind) {
@@ -1173,7 +1177,7 @@ func main() {
 				}
 				continue
 			}
-			if k.kind == "async-backlog" || k.kind == "fork-burst" {
+			if k.kind == "async-backlog" || k.kind == "fork-burst" || k.kind == "async-churn" {
 				runCase(r, genExtra(r, k.kind, i))
 				continue
 			}
